@@ -410,10 +410,15 @@ class World:
         events = []
         self.lineage_events[(node, inc)] = events
 
+        fault = self.scn['lineage'].get('client_fault')      # which events the transport fails on AFTER the backend got them (reply timed out)
+
         class Cap:
             def emit(self, event):
                 et = event.eventType
-                events.append((getattr(et, 'value', None) or getattr(et, 'name', None) or str(et), event.run.runId))
+                kind = getattr(et, 'value', None) or getattr(et, 'name', None) or str(et)
+                events.append((kind, event.run.runId))
+                if fault == 'every' or (fault == 'terminal' and kind in ('COMPLETE', 'ABORT', 'FAIL')) or (fault and fault.upper() == kind):
+                    raise TimeoutError('lineage backend did not answer (event was delivered)')
         em = OpenFilterLineage(client=Cap(), filter_name='VFilter')
         em.interval = self.scn['lineage'].get('interval_s', 10)
         self.emitters[(node, inc)] = em
